@@ -185,3 +185,46 @@ Theorem C17_migrate_refuted_before_fix : forall dcs a,
   (forall n, a <> AInt n) -> process_err_unfixed dcs s_phone_migrate_x a = Panic.
 Proof. exact process_err_unfixed_panics. Qed.
 Print Assumptions C17_migrate_refuted_before_fix.
+
+(* --- several clients in one process: the DC table is per-client state ------------------ *)
+
+(* [crun d [] h]: the clients after the history h of NewMTProto / SetDCList / tryToProcessErr
+   operations (d = defaultDCList()); clients are numbered by creation; [observe w c m i] is
+   what tryToProcessErr answers on client c.  Non-interference, by induction over the history:
+   the answer on c is unchanged when every SetDCList and tryToProcessErr made on the OTHER
+   clients is deleted from the history. *)
+Theorem C17_per_client : forall d c h m i,
+  observe (crun d [] h) c m i = observe (crun d [] (restrict c h)) c m i.
+Proof. exact observe_restrict. Qed.
+Print Assumptions C17_per_client.
+
+(* closed form: for the client created after h1, whatever else happens in h1 and h2, the
+   answer is computed from the default list and the arguments of its own SetDCList calls *)
+Theorem C17_own_table : forall d h1 a0 h2 c m i,
+  length (crun d [] h1) = c ->
+  observe (crun d [] (h1 ++ NewClient a0 :: h2)) c m i
+  = Some (process_err (own_sets c h2 ++ d) m i).
+Proof. exact observe_own. Qed.
+Print Assumptions C17_own_table.
+
+Theorem C17_migrate_per_client : forall d h1 a0 h2 c x,
+  length (crun d [] h1) = c ->
+  observe (crun d [] (h1 ++ NewClient a0 :: h2)) c s_phone_migrate_x (AInt x)
+  = Some (Ok (match dc_lookup x (own_sets c h2) with
+              | Some a => Switch a
+              | None => match dc_lookup x d with Some a => Switch a | None => NoSuchDC end
+              end)).
+Proof. exact observe_migrate. Qed.
+Print Assumptions C17_migrate_per_client.
+
+(* client 0 configures DCs 2 and 7; client 1 and the later client 2 are not affected *)
+Example C17_per_client_satisfiable :
+  let d := [(2%Z, lit "default-2")] in
+  let h := [NewClient (lit "a"); NewClient (lit "b");
+            SetDC 0 [(2%Z, lit "test-dc2"); (7%Z, lit "test-dc7")]; NewClient (lit "c")] in
+  let w := crun d [] h in
+  observe w 0 s_phone_migrate_x (AInt 7) = Some (Ok (Switch (lit "test-dc7"))) /\
+  observe w 1 s_phone_migrate_x (AInt 2) = Some (Ok (Switch (lit "default-2"))) /\
+  observe w 1 s_phone_migrate_x (AInt 7) = Some (Ok NoSuchDC) /\
+  observe w 2 s_phone_migrate_x (AInt 7) = Some (Ok NoSuchDC).
+Proof. vm_compute. intuition. Qed.
